@@ -57,6 +57,31 @@ type world struct {
 	hookErr    error // result of the identity-hook entry point for the last validation with hook "none"
 	hookRan    bool
 	links      map[string]*matLink
+	render     int // how the abstract command letters are written (cmdRenderings)
+}
+
+// cmdRenderings: the specification's commands are sequences of abstract characters; the rules (segment-wise
+// coverage) do not depend on how a letter is written, so the same abstract command is materialized with
+// single-byte, two-byte and three-byte lower-case letters, in the first or in the last segment.
+var cmdRenderings = []map[string]string{
+	{},
+	{"a": "é"},
+	{"a": "éé", "b": "x"},
+	{"a": "日本", "b": "abc"},
+	{"b": "ß"},
+}
+
+func (w *world) cmdOf(chars []string) (command.Command, error) {
+	r := cmdRenderings[w.render%len(cmdRenderings)]
+	var sb strings.Builder
+	for _, c := range chars {
+		if v, ok := r[c]; ok {
+			sb.WriteString(v)
+		} else {
+			sb.WriteString(c)
+		}
+	}
+	return command.Parse(sb.String())
 }
 
 func genKey(alg string) (crypto.PrivKey, did.DID, error) {
@@ -178,11 +203,13 @@ func argsOfPoint(p int) *args.Args {
 var policyCatalogue = map[string][]string{
 	"[]": {`["==", ".x", 7]`, `["<", ".x", 0]`, `["and", [[">", ".x", 1], ["<", ".x", 1]]]`, `["like", ".s", "w*"]`, `["any", ".l", ["==", ".", 5]]`,
 		`["==", ".t[0:1]", "e"]`, `["not", ["==", ".t[-1:]", "ü"]]`, `["==", ".m.k", "0"]`, `["<=", ".f", 0]`, `[">=", ".f", 3]`, `["<", ".big", 0]`,
-		`["==", ".y?.z", 1]`, `["like", ".y?[0]", "*"]`, `["any", ".e", ["==", ".", 1]]`, `["any", ".e", [">=", ".", 0]]`, `["not", ["all", ".e", ["==", ".", 1]]]`},
+		`["==", ".y?.z", 1]`, `["like", ".y?[0]", "*"]`, `["any", ".e", ["==", ".", 1]]`, `["any", ".e", [">=", ".", 0]]`, `["not", ["all", ".e", ["==", ".", 1]]]`,
+		// the literals before and after the star overlap in the argument: the star stands for a sequence BETWEEN them
+		`["like", ".s", "v1*1"]`, `["like", ".s", "v*v0"]`, `["like", ".t", "é0*0ü"]`, `["like", ".s", "v2*v2"]`},
 	"[0]": {`["==", ".x", 0]`, `["<", ".x", 1]`, `["not", [">", ".x", 0]]`, `["like", ".s", "*0"]`, `["any", ".l", ["==", ".", 0]]`, `["<=", ".x", 0]`,
 		`["==", ".t[1:2]", "0"]`, `["like", ".t[1:]", "0*"]`, `["==", ".l[-2]", 0]`, `["==", ".m.k", 0]`},
 	"[1]": {`["==", ".x", 1]`, `["and", [[">", ".x", 0], ["<", ".x", 2]]]`, `["like", ".s", "v1"]`, `["any", ".l", ["==", ".", 1]]`,
-		`["==", ".t[-2:-1]", "1"]`, `["==", ".m[\"k\"]", 1]`, `["all", ".m[]", ["==", ".", 1]]`},
+		`["==", ".t[-2:-1]", "1"]`, `["==", ".m[\"k\"]", 1]`, `["all", ".m[]", ["==", ".", 1]]`, `["like", ".s", "v*1"]`, `["like", ".t", "*1*"]`},
 	"[2]": {`["==", ".x", 2]`, `[">", ".x", 1]`, `[">=", ".x", 2]`, `["like", ".s", "*2"]`, `["not", ["<", ".x", 2]]`,
 		`["==", ".t[1:2]", "2"]`, `["any", ".l[0:1]", ["==", ".", 2]]`},
 	"[0 1]": {`["<", ".f", 2.5]`, `["<", ".x", 2]`, `["<=", ".x", 1]`, `["not", ["==", ".x", 2]]`, `["or", [["==", ".x", 0], ["==", ".x", 1]]]`, `["any", ".l", ["<", ".", 2]]`,
@@ -296,7 +323,7 @@ func (w *world) link(l absLink, now int) (*matLink, error) {
 	if err != nil {
 		return nil, err
 	}
-	cmd, err := cmdOf(l.Cmd)
+	cmd, err := w.cmdOf(l.Cmd)
 	if err != nil {
 		return nil, err
 	}
@@ -382,6 +409,18 @@ func missingCid(n int) cid.Cid {
 	return cid.NewCidV1(cid.DagCBOR, h)
 }
 
+// aliasCid: another CID over the same digest (raw / dag-json codec, CIDv0): a DIFFERENT reference, under which no
+// loader holds anything - "every referenced delegation can be loaded" is about the CID the invocation names.
+func aliasCid(c cid.Cid, k int) cid.Cid {
+	switch k % 3 {
+	case 0:
+		return cid.NewCidV1(cid.Raw, c.Hash())
+	case 1:
+		return cid.NewCidV1(cid.DagJSON, c.Hash())
+	}
+	return cid.NewCidV0(c.Hash())
+}
+
 // validateReal materializes the abstract chain and returns the real verdict.
 func (w *world) validateReal(c *chainCase, variant int) (allowed bool, stage string, err error) {
 	var prf []cid.Cid
@@ -389,7 +428,17 @@ func (w *world) validateReal(c *chainCase, variant int) (allowed bool, stage str
 	cw := container.NewWriter()
 	for i, l := range c.Links {
 		if l.Missing {
-			prf = append(prf, missingCid(i))
+			// the reference cannot be loaded: a CID nobody knows, or (two times out of three) a CID of another form over
+			// the digest of a delegation the loader DOES hold under its own CID
+			l2 := l
+			l2.Missing = false
+			if m, err := w.link(l2, c.Now); err == nil && (variant+i)%3 != 0 {
+				prf = append(prf, aliasCid(m.id, variant/3+i))
+				ml[m.id] = m.dec
+				cw.AddSealed(m.id, m.sealed)
+			} else {
+				prf = append(prf, missingCid(i))
+			}
 			continue
 		}
 		m, err := w.link(l, c.Now)
@@ -438,7 +487,7 @@ func (w *world) validateReal(c *chainCase, variant int) (allowed bool, stage str
 	if err != nil {
 		return false, "", err
 	}
-	cmd, err := cmdOf(c.Inv.Cmd)
+	cmd, err := w.cmdOf(c.Inv.Cmd)
 	if err != nil {
 		return false, "", err
 	}
@@ -554,7 +603,11 @@ var fastAlgs = []string{"ed25519", "ed25519", "secp256k1", "p256"}
 
 func chainReplay(prop string) replayFn {
 	return func(cases []json.RawMessage, rep *Report) error {
-		w := newWorld(envSeed(), fastAlgs)
+		ws := make([]*world, len(cmdRenderings))
+		for r := range ws {
+			ws[r] = newWorld(envSeed()+int64(r), fastAlgs)
+			ws[r].render = r
+		}
 		if bad := catalogueSelfCheck(); len(bad) > 0 && (prop == "C03" || prop == "C05") {
 			for _, b := range bad {
 				rep.violation(map[string]any{"catalogue": b}, "catalogue statement has its stated acceptance set", b,
@@ -563,7 +616,14 @@ func chainReplay(prop string) replayFn {
 			return nil
 		}
 		audGroups := map[string]map[bool]json.RawMessage{}
-		for idx, raw := range cases {
+		// the command property is replayed under every rendering of the letters, the others under one per case
+		rounds := 1
+		if prop == "C02" {
+			rounds = len(cmdRenderings)
+		}
+		for idx0 := 0; idx0 < len(cases)*rounds; idx0++ {
+			idx, raw := idx0/rounds, cases[idx0/rounds]
+			w := ws[idx0%len(ws)]
 			var c chainCase
 			if err := json.Unmarshal(raw, &c); err != nil {
 				return err
@@ -644,10 +704,13 @@ func chainReplay(prop string) replayFn {
 			}
 		}
 		algs := map[string]string{}
-		for n, p := range w.principals {
-			algs[n] = p.alg
+		for _, w := range ws {
+			for n, p := range w.principals {
+				algs[fmt.Sprintf("%s/%d", n, w.render)] = p.alg
+			}
 		}
 		rep.Extra["principal_algorithms"] = algs
+		rep.Extra["command_renderings"] = cmdRenderings
 		return nil
 	}
 }
